@@ -6,7 +6,7 @@ Each model has an executable twin in selftest/axiomtest.py that is run against t
 from __future__ import annotations
 import z3
 from .core import (Val, Num, Bool, Str, NoneV, NONE, Opt, Tup, Vec, Mat, Obj, Opaque, Buf, Ctx,
-                   Unsupported, PyRaise, zint, conc, is_concrete_int, zreal_of_float)
+                   Unsupported, PyRaise, zint, conc, is_concrete_int, zreal_of_float, patterns_for)
 from . import ops
 from .ops import lift, truth, vget, vset, ite_val, snapshot, norm_index, as_real, to_num, vec_elemwise, in_range
 from .interp import lib, method, LIB, METHODS, TypeRef, LibCallable
@@ -42,6 +42,9 @@ LIB["numpy.newaxis"] = NONE
 for _t in ("float", "int", "bool", "object", "float64", "int64", "ndarray"):
     LIB["numpy." + _t] = TypeRef(_t)
 LIB["numbers.Number"] = TypeRef("Number")
+from .interp import LibModule as _LM
+LIB["numpy.linalg"] = _LM("numpy.linalg")
+LIB["numpy.random"] = _LM("numpy.random")
 
 
 def as_vec(interp, x, what="array"):
@@ -782,3 +785,30 @@ def _mat_binop(interp, self: Mat, other, op, swapped=False):
 for _op in ("+", "-", "*", "/"):
     METHODS[("mat", "@op:" + _op)] = (lambda op: lambda interp, self, args, kwargs: _mat_binop(interp, self, args[0], op))(_op)
     METHODS[("mat", "@rop:" + _op)] = (lambda op: lambda interp, self, args, kwargs: _mat_binop(interp, self, args[0], op, swapped=True))(_op)
+
+
+@lib("numpy.argmin")
+def np_argmin(interp, args, kwargs):
+    """library contract: the first index of a minimal element (1-D)"""
+    ctx = interp.ctx
+    v = as_vec(interp, args[0], "np.argmin")
+    if "axis" in kwargs and not isinstance(kwargs["axis"], NoneV) and conc(kwargs["axis"].z) != 0:
+        raise Unsupported("argmin with axis")
+    n = zint(v.length)
+    if ctx.branch(n == 0, "argmin-empty"):
+        raise PyRaise("ValueError", "attempt to get argmin of an empty sequence")
+    k = ctx.int("argmin")
+    src = snapshot(v)
+    vk = as_real(to_num(src(k)))
+    ctx.assume(z3.And(k >= 0, k < n))
+    j = z3.Int(ctx.fresh("j"))
+    ctx.binder_stack.append([])
+    try:
+        vj = as_real(to_num(src(j)))
+    finally:
+        ctx.binder_stack.pop()
+    ctx.assume(z3.ForAll([j], z3.Implies(z3.And(j >= 0, j < n), z3.And(vk <= vj, z3.Implies(j < k, vj > vk))), patterns=patterns_for(vj, [j])))
+    out = Num(k, True)
+    out_facts = lambda jj: z3.Implies(z3.And(zint(jj) >= 0, zint(jj) < n), z3.And(vk <= as_real(to_num(src(zint(jj)))), z3.Implies(zint(jj) < k, as_real(to_num(src(zint(jj)))) > vk)))
+    ctx.__dict__.setdefault("argmins", []).append({"k": k, "instance": out_facts, "n": n})
+    return out
